@@ -1,5 +1,168 @@
-import CachedModel
+/-
+  C09  Expired values are never served.
+
+  Statements about `CachedModel/State.lean` (Layer A; a read is one atomic action there and in Layer B alike):
+  for every state, key, oracle, time-to-live, clock value.
+-/
+import CachedProofs.Lemmas.AMap
+import CachedModel.State
 
 namespace Cached
+
+/-- `now = deadline` is still alive, one nanosecond later is not (clock.rs:24 `has_passed = now > time`). -/
+theorem C09_boundary (e : Entry) (t : Nat) (he : e.expiry = some t) (hs : e.soft = false) :
+    e.alive t = true ∧ e.alive (t + 1) = false ∧ ∀ now, e.alive now = decide (now ≤ t) := by
+  refine ⟨?_, ?_, ?_⟩ <;> simp [Entry.alive, he, hs]
+  intro now
+  by_cases h : now ≤ t
+  · have : ¬ t < now := by omega
+    simp [h, this]
+  · have : t < now := by omega
+    simp [h, this]
+
+/-- a key without a time-to-live never expires -/
+theorem C09_no_ttl_never_expires (e : Entry) (he : e.expiry = none) (hs : e.soft = false) (now : Nat) :
+    e.alive now = true := by simp [Entry.alive, he, hs]
+
+/-- **Never served.** Once the clock is past the stored deadline every read of the key reports absent —
+    whether or not the sweeper has run (the entry is still physically present here). The read counts a miss
+    and changes nothing else. -/
+theorem C09_never_served (s : State) (k : Nat) (o : Oracle) (e : Entry) (t : Nat)
+    (hk : s.store.get? k = some e) (he : e.expiry = some t) (hnow : s.now > t) :
+    readKey s k o = .ok ({ s with stats := { s.stats with misses := s.stats.misses + 1 } }, none, o) := by
+  have : e.alive s.now = false := by simp [Entry.alive, he, hnow]
+  simp [readKey, hk, this]
+
+/-- **Never hidden.** While the clock has not passed the deadline (or there is none) and the key is not
+    deleted, every read that completes returns the stored value. -/
+theorem C09_not_hidden (s s' : State) (k : Nat) (o o' : Oracle) (e : Entry) (v : Option Nat)
+    (hk : s.store.get? k = some e) (hs : e.soft = false)
+    (hlive : e.expiry = none ∨ ∃ t, e.expiry = some t ∧ s.now ≤ t)
+    (hr : readKey s k o = .ok (s', v, o')) : v = some e.value := by
+  have halive : e.alive s.now = true := by
+    rcases hlive with h | ⟨t, h, hle⟩
+    · simp [Entry.alive, h, hs]
+    · simp [Entry.alive, h, hs]; omega
+  simp only [readKey, hk, halive, if_true] at hr
+  split at hr
+  · simp only [Except.ok.injEq, Prod.mk.injEq] at hr; exact hr.2.1.symm
+  · cases hr
+
+/-- all single-key read variants are this one function; the multi-key variants fold it over the keys -/
+theorem C09_variants_agree (s : State) (k : Nat) (o : Oracle) (hs : s.shutting = false) :
+    clientGet s k o = (match readKey s k o with | .ok (s1, v, o') => .ok (s1, .value v, o') | .error m => .error m) ∧
+    clientMultiGet s [k] o = (match readKey s k o with | .ok (s1, v, o') => .ok (s1, .values [v], o') | .error m => .error m) := by
+  constructor
+  · simp only [clientGet, hs, Bool.false_eq_true, if_false]
+    cases readKey s k o with
+    | error m => rfl
+    | ok r => rfl
+  · simp only [clientMultiGet, hs, Bool.false_eq_true, if_false, readKeys]
+    cases readKey s k o with
+    | error m => rfl
+    | ok r => obtain ⟨s1, v, o'⟩ := r; simp
+
+/-- the deadline of a put with time-to-live is the worker's clock plus the time-to-live -/
+theorem C09_deadline_put (s s1 : State) (id hash k v ttl : Nat) (w : Int) (o o' : Oracle) (ie : Option Nat)
+    (pp : List SKey) (ev : List Evicted)
+    (h : workerPut s id hash w k v (some ttl) o = .ok (.done s1 .accepted ie pp ev, o')) :
+    s1.store.get? k = some { value := v, id := id, expiry := some (s.now + ttl), soft := false } ∧
+      addTime s.now ttl = some (s.now + ttl) := by
+  unfold workerPut at h
+  split at h
+  · simp at h
+  · split at h
+    · cases h
+    · rename_i r hr
+      split at h
+      · cases hadd : addTime s.now ttl with
+        | none => simp [hadd] at h
+        | some x =>
+          have hx : x = s.now + ttl := by
+            unfold addTime at hadd; split at hadd <;> simp at hadd; exact hadd.symm
+          subst hx
+          simp only [hadd, Except.ok.injEq, Prod.mk.injEq, Exec.done.injEq] at h
+          obtain ⟨⟨hs1, _⟩, _⟩ := h
+          subst hs1
+          exact ⟨by simp [ttlPut], rfl⟩
+      · rename_i hst
+        simp only [Except.ok.injEq, Prod.mk.injEq, Exec.done.injEq] at h
+        exact absurd h.1.2.1 hst
+
+/-- a put without time-to-live stores no deadline -/
+theorem C09_deadline_put_none (s s1 : State) (id hash k v : Nat) (w : Int) (o o' : Oracle) (ie : Option Nat)
+    (pp : List SKey) (ev : List Evicted)
+    (h : workerPut s id hash w k v none o = .ok (.done s1 .accepted ie pp ev, o')) :
+    s1.store.get? k = some { value := v, id := id, expiry := none, soft := false } := by
+  unfold workerPut at h
+  split at h
+  · simp at h
+  · split at h
+    · cases h
+    · split at h
+      · simp only [Except.ok.injEq, Prod.mk.injEq, Exec.done.injEq] at h
+        obtain ⟨⟨hs1, _⟩, _⟩ := h
+        subst hs1
+        simp
+      · rename_i hst
+        simp only [Except.ok.injEq, Prod.mk.injEq, Exec.done.injEq] at h
+        exact absurd h.1.2.1 hst
+
+/-- an upsert of a physically present key moves the deadline exactly as requested, at the caller's clock:
+    removed, set to `now + ttl`, or left alone; the value is replaced iff one was given. -/
+theorem C09_deadline_upsert (s : State) (c k : Nat) (v : Option Nat) (w : Option Int) (ttl : Option Nat) (rm : Bool)
+    (e : Entry) (hsh : s.shutting = false) (hk : s.store.get? k = some e)
+    (hov : ∀ t, ttl = some t → rm = false → addTime s.now t = some (s.now + t)) :
+    ∃ e', (clientUpsert s c k v w ttl rm).1.store.get? k = some e' ∧ e'.id = e.id ∧ e'.soft = e.soft ∧
+      e'.value = v.getD e.value ∧
+      e'.expiry = (if rm then none else match ttl with | some t => some (s.now + t) | none => e.expiry) := by
+  have key : ∀ (s2 : State) (cmd : Cmd), (sendCmd s2 c cmd).1.store = s2.store := by
+    intro s2 cmd; unfold sendCmd; split <;> (try split) <;> rfl
+  unfold clientUpsert
+  simp only [hsh, Bool.false_eq_true, if_false, hk]
+  cases rm with
+  | true =>
+    simp only [if_true]
+    refine ⟨{ e with expiry := none, value := v.getD e.value }, ?_, rfl, rfl, rfl, rfl⟩
+    cases hty : typeOfExpiryUpdate e.expiry none <;>
+      (simp only []; repeat' split) <;>
+      simp [key, spotAck, ttlPut, ttlDelete, ttlUpdate]
+  | false =>
+    simp only [Bool.false_eq_true, if_false]
+    cases ttl with
+    | none =>
+      refine ⟨{ e with expiry := e.expiry, value := v.getD e.value }, ?_, rfl, rfl, rfl, rfl⟩
+      cases hty : typeOfExpiryUpdate e.expiry e.expiry <;>
+        (simp only []; repeat' split) <;>
+        simp [key, spotAck, ttlPut, ttlDelete, ttlUpdate]
+    | some t =>
+      have := hov t rfl rfl
+      simp only [this]
+      refine ⟨{ e with expiry := some (s.now + t), value := v.getD e.value }, ?_, rfl, rfl, rfl, rfl⟩
+      cases hty : typeOfExpiryUpdate e.expiry (some (s.now + t)) <;>
+        (simp only []; repeat' split) <;>
+        simp [key, spotAck, ttlPut, ttlDelete, ttlUpdate]
+
+/-- clock moves, sweeps of other keys, access counting never alter a stored deadline: the only functions that
+    write `expiry` are `workerPut` and `clientUpsert` (frame lemmas for the rest). -/
+theorem C09_frame_advance (s : State) (d : Nat) (o : Oracle) :
+    ∃ s', step s (.advance d) o = .ok (s', .none, o) ∧ s'.store = s.store ∧ s'.now = s.now + d := by
+  exact ⟨_, rfl, rfl, rfl⟩
+
+theorem C09_frame_consumer (s s' : State) (o o' : Oracle) (out : Out) (h : consumerStep s o = .ok (s', out, o')) :
+    s'.store = s.store ∧ s'.now = s.now := by
+  unfold consumerStep at h
+  split at h
+  · cases h
+  · split at h
+    · cases h
+    · simp only [Except.ok.injEq, Prod.mk.injEq] at h; obtain ⟨rfl, _, _⟩ := h; exact ⟨rfl, rfl⟩
+    · split at h
+      · cases h
+      · split at h <;> (simp only [Except.ok.injEq, Prod.mk.injEq] at h; obtain ⟨rfl, _, _⟩ := h; exact ⟨rfl, rfl⟩)
+
+/-- Non-vacuity: a concrete entry at its boundary. -/
+example : ({ value := 7, id := 1, expiry := some 1000, soft := false } : Entry).alive 1000 = true ∧
+          ({ value := 7, id := 1, expiry := some 1000, soft := false } : Entry).alive 1001 = false := by decide
 
 end Cached
